@@ -124,12 +124,23 @@ def validateEndStates (g : GNFA σ ℓ) (start : σ) (paths : List (σ × Option
       guardE (!g.missingTargets paths) (.lib .missingStateError)).andThen <|
   firstErr (akeys paths) fun q => guardE (decide (q ∈ g.states)) (.lib .invalidStateError)
 
-/-- `GNFA.validate`. -/
+/-- `GNFA.validate` (as repaired by fix 084dfed: final ≠ initial, a row for every non-final
+state, no labelled transition into the initial state):
+`_validate_initial_state`, `_validate_final_state`, `initial_state == final_state`,
+`for state in states: state != final_state and state not in transitions`, then per row
+(invalid symbols, end states, `paths.get(initial_state) is not None`), and last
+`_validate_initial_state_transitions`. -/
 def validate (labelCheck : ℓ → Res Unit) (g : GNFA σ ℓ) : Res Unit :=
   (guardE (decide (g.init ∈ g.states)) (.lib .invalidStateError)).andThen <|
   (guardE (decide (g.final ∈ g.states)) (.lib .invalidStateError)).andThen <|
+  (guardE (decide (g.init ≠ g.final)) (.lib .invalidStateError)).andThen <|
+  (firstErr g.states fun q =>
+    guardE (decide (q = g.final) || ahas q g.trans) (.lib .missingStateError)).andThen <|
   (firstErr g.trans fun kv =>
-    (validateLabels labelCheck kv.2).andThen (g.validateEndStates kv.1 kv.2)).andThen <|
+    (validateLabels labelCheck kv.2).andThen <|
+    (g.validateEndStates kv.1 kv.2).andThen <|
+    guardE (match alookup g.init kv.2 with | some (some _) => false | _ => true)
+      (.lib .invalidStateError)).andThen <|
   guardE (ahas g.init g.trans || decide (g.states.length ≤ 1)) (.lib .missingStateError)
 
 /-- The constructor: `__post_init__` validates unconditionally. -/
